@@ -1,7 +1,6 @@
 package main
 
 import (
-	"bytes"
 	"fmt"
 	"sort"
 	"strings"
@@ -167,7 +166,16 @@ func (t *MergeTable) bindings(st Ver, in In, cfg MCfg) Bindings {
 	b := Bindings{}
 	r := t.recv
 	if st.Present {
-		b[t.old] = Bv(bytes.Repeat([]byte{0}, 24+len(st.Val)))
+		// a faithful stored value: documented 24-byte header + application value
+		hdr := make([]byte, 24, 24+len(st.Val))
+		for i := 0; i < 8; i++ {
+			hdr[i] = byte(st.TS >> (8 * (7 - i)))
+		}
+		hdr[15] = 9 // txn id of an earlier transaction
+		if st.Del {
+			hdr[17] = 1
+		}
+		b[t.old] = Bv(append(hdr, st.Val...))
 		b[t.parse+"#0.Timestamp"] = U(st.TS)
 		fl := uint64(0)
 		if st.Del {
